@@ -22,7 +22,7 @@ from puresnmp.adt import (
     V3Flags,
 )
 from puresnmp.credentials import V3, Credentials
-from puresnmp.exc import SnmpError
+from puresnmp.exc import ErrorResponse, SnmpError
 from puresnmp.pdu import GetRequest, PDUContent, Report
 from puresnmp.plugins.security import SecurityModel
 from puresnmp.transport import MESSAGE_MAX_SIZE
@@ -323,7 +323,16 @@ def verify_authentication(
         if isinstance(scoped_pdu, ScopedPDU) and isinstance(
             scoped_pdu.data, Report
         ):
-            validate_usm_message(cast(PlainMessage, message))
+            try:
+                validate_usm_message(cast(PlainMessage, message))
+            except ErrorResponse as exc:
+                # The error-status of an unauthenticated report is not
+                # trustworthy either (a forged "noSuchName" would silently
+                # end a walk).
+                raise AuthenticationError(
+                    "Received an unauthenticated report carrying an "
+                    "error-status for a user which requires authentication!"
+                ) from exc
         raise AuthenticationError(
             "Received an unauthenticated message for a user which "
             "requires authentication!"
